@@ -123,3 +123,18 @@ def rand_name(rng, maxbytes=255) -> str:
     while len(s.encode()) > maxbytes:
         s = s[:-1]
     return s
+
+
+def block_boundary_sizes(overheads, limit, quick=True):
+    """Payload sizes n for which n + overhead (for each overhead in `overheads`) is just below / exactly / just above a
+    multiple of a power-of-two block size (256 ... 32768).  Chunked or buffered processing slips show up only there."""
+    out = set()
+    ks = (1, 2, 3) if quick else (1, 2, 3, 4, 5, 7, 8, 15, 16)
+    for b in (256, 512, 1024, 2048, 4096, 8192, 16384, 32768):
+        for k in ks:
+            for ov in overheads:
+                for d in (-1, 0, 1):
+                    n = k * b - ov + d
+                    if 0 <= n <= limit:
+                        out.add(n)
+    return sorted(out)
